@@ -340,3 +340,110 @@ func variadicElems(c *ssa.Call) []ssa.Value {
 	}
 	return out
 }
+
+// ruleRenderAsserts — R-RENDERASSERT (C02: rendering with colour changes
+// nothing but ANSI sequences — in particular it does not crash). The hunk
+// renderer is outside R-PANIC's scope; its unchecked type assertions are
+// obligations of their own, discharged by the correlated-flag schema: an
+// unchecked assertion of an element of list X to T is safe when it lies behind
+// a boolean flag that becomes true only where len(X) == 1 has been established
+// and X[0] has been asserted to T successfully. Any other unchecked assertion
+// in the renderer is reported.
+func ruleRenderAsserts(w *World, r *Report, pkg *ssa.Package, tag string) {
+	const rule = "R-RENDERASSERT"
+	fn := w.MethodOpt(pkg, "DiffElement", "Render")
+	if fn == nil || fn.Blocks == nil {
+		r.Ok(rule, tag+".(DiffElement).Render", "-", "the hunk renderer was not found: no claim")
+		return
+	}
+	r.Fn(fnName(fn))
+	key := func(v ssa.Value) string {
+		root, sel := accessPath(v)
+		return fmt.Sprintf("%p%s", root, selString(sel))
+	}
+	n := 0
+	for _, b := range fn.Blocks {
+		for _, in := range b.Instrs {
+			ta, ok := in.(*ssa.TypeAssert)
+			if !ok || ta.CommaOk {
+				continue
+			}
+			if _, isIface := ta.X.Type().Underlying().(*types.Interface); !isIface {
+				continue
+			}
+			n++
+			okS, why := false, "no guarding flag found"
+			// the list the asserted element comes from
+			var list ssa.Value
+			if ld, isLd := ta.X.(*ssa.UnOp); isLd && ld.Op == token.MUL {
+				if ia, isIA := ld.X.(*ssa.IndexAddr); isIA {
+					list = ia.X
+				}
+			}
+			if list != nil {
+				lk := key(list)
+				for _, bb := range fn.Blocks {
+					cond, tE, _, okb := branchEdges(bb)
+					if !okb || !(edgeDominates(tE, b) || tE.To() == b && len(b.Preds) == 1) {
+						continue
+					}
+					phi, isPhi := cond.(*ssa.Phi)
+					if !isPhi {
+						continue
+					}
+					all, any := true, false
+					for i, e := range phi.Edges {
+						v, isK := constBool(e)
+						if !isK {
+							all = false
+							continue
+						}
+						if !v {
+							continue
+						}
+						any = true
+						src := phi.Block().Preds[i]
+						lenOK, elemOK := false, false
+						for _, b3 := range fn.Blocks {
+							c3, t3, _, ok3 := branchEdges(b3)
+							if !ok3 || !(edgeDominates(t3, src) || t3.To() == src) {
+								continue
+							}
+							if bo, isBo := c3.(*ssa.BinOp); isBo && bo.Op == token.EQL {
+								if k, isK := constInt(bo.Y); isK && k == 1 {
+									if c, isLen := isBuiltinCall(stripInt(bo.X), "len"); isLen && key(c.Call.Args[0]) == lk {
+										lenOK = true
+									}
+								}
+							}
+							if ex, isEx := c3.(*ssa.Extract); isEx && ex.Index == 1 {
+								if t2, isTA := ex.Tuple.(*ssa.TypeAssert); isTA && t2.CommaOk && types.Identical(t2.AssertedType, ta.AssertedType) {
+									if ld, isLd := t2.X.(*ssa.UnOp); isLd && ld.Op == token.MUL {
+										if ia, isIA := ld.X.(*ssa.IndexAddr); isIA && key(ia.X) == lk {
+											if k, isK := constInt(ia.Index); isK && k == 0 {
+												elemOK = true
+											}
+										}
+									}
+								}
+							}
+						}
+						if !lenOK || !elemOK {
+							all = false
+							why = "the flag guarding the assertion can become true without len(list) == 1 and a successful assertion of its first element"
+						}
+					}
+					if all && any {
+						okS = true
+					}
+				}
+			}
+			r.Check(okS, rule, fmt.Sprintf("%s:unchecked-assert#%d", fnName(fn), n), w.Pos(ta.Pos()),
+				"the unchecked assertion lies behind a flag that is true only where the list has exactly one element and that element was asserted to the same type",
+				"an unchecked assertion to "+typeName(ta.AssertedType)+" in the hunk renderer is not protected ("+why+"): rendering (with colour) a hunk whose values are not all of that type panics")
+		}
+	}
+	if n == 0 {
+		r.Ok(rule, fnName(fn)+":no-unchecked-assertions", w.Pos(fn.Pos()), "the hunk renderer contains no unchecked type assertion")
+	}
+}
